@@ -91,12 +91,14 @@ int main(int argc, char **argv) {
     init(argc, argv);
     std::vector<int64_t> Ms = quick() ? std::vector<int64_t>{2048, 8, 3, 1000}
                                       : std::vector<int64_t>{2, 3, 4, 5, 7, 8, 16, 1000, 1024, 2048, 4096, 32768, (int64_t)1 << 30};
+    if (!opt("ms").empty()) { Ms.clear(); std::string v = opt("ms"); size_t q = 0; while (q < v.size()) { size_t e = v.find(',', q); if (e == std::string::npos) e = v.size(); Ms.push_back(atoll(v.substr(q, e - q).c_str())); q = e + 1; } }
+    bool light = opt("light") == "1"; // second build in the quick tier: the full sweeps for the listed M and the all-M boundary alphabet only
     for (int64_t M : Ms)
         for (uint32_t c = 0; c < 256; c++) { std::string key = fmt("modswitch/M=%lld/chunk=%u", (long long)M, c); if (take(key)) { if (deadline()) break; sweep_phase_chunk(M, c); } }
     for (int64_t M = 2; M <= 32768; M++) { if (take(fmt("boundary/M=%lld", (long long)M))) { if (deadline()) break; boundary_M(M); } }
-    for (int64_t M = 2; M <= 32768; M++) { if (take(fmt("roundtrip/M=%lld", (long long)M))) { if (deadline()) break; roundtrip_M(M); } }
-    for (int b = 16; b <= 30; b++) { int64_t M = (int64_t)1 << b; if (take(fmt("roundtrip/M=%lld", (long long)M))) { if (deadline()) break; roundtrip_M(M); }
+    if (!light) for (int64_t M = 2; M <= 32768; M++) { if (take(fmt("roundtrip/M=%lld", (long long)M))) { if (deadline()) break; roundtrip_M(M); } }
+    if (!light) for (int b = 16; b <= 30; b++) { int64_t M = (int64_t)1 << b; if (take(fmt("roundtrip/M=%lld", (long long)M))) { if (deadline()) break; roundtrip_M(M); }
                                      if (take(fmt("boundary/M=%lld", (long long)M))) { if (deadline()) break; if (b <= 22 || thorough()) boundary_M(M); } }
-    for (uint32_t c = 0; c < 256; c++) { if (quick() && (c % 4) != (uint32_t)(S().seed & 3)) continue; if (take(fmt("dtot32/chunk=%u", c))) { if (deadline()) break; conv_chunk(c); } }
+    if (!light) for (uint32_t c = 0; c < 256; c++) { if (quick() && (c % 4) != (uint32_t)(S().seed & 3)) continue; if (take(fmt("dtot32/chunk=%u", c))) { if (deadline()) break; conv_chunk(c); } }
     return finish();
 }
